@@ -20,7 +20,11 @@ RULE = ('well-formed expressions of depth <=5 (thorough <=6) from a typed '
         'sibling and read in another, $ read inside zero-argument lambdas '
         'nested in one-argument lambdas, inner lambdas reading outer '
         'elements, def bodies whose free variables are re-bound at the call '
-        'site, unbound names; documents are generated; non-trivial = scope '
+        'site, unbound names, def names under which the library has methods '
+        '(len, sum, first, select, where, toList, any); documents are '
+        'generated; histories of evaluations that are given no context, '
+        'with the document and then with no data at all (`$` unknown); '
+        'non-trivial = scope '
         'depth >=2 and (a read whose binder is not the innermost frame, or a '
         'shadowed name, or an unbound name, or a closure call); distinct = '
         'distinct (expression, document)')
@@ -105,7 +109,56 @@ def check_program(run, case):
                         text, doc, got[1], exp[1]), input_class=ic)
 
 
-REPLAY = {'program': check_program}
+def _ref(ast, doc, bound):
+    root = R.Frame()
+    if bound:
+        root.vars['$1'] = doc
+    try:
+        return ('ok', R.force(R.Interp().ev(ast, root)))
+    except R.ModelError as e:
+        return ('err', str(e))
+
+
+def check_contextless(run, case):
+    """evaluations that are given no context (the engine supplies the
+    library) in a history: with a document, then with no data at all - `$`
+    is then an unknown variable"""
+    doc = case['doc']
+    steps = [(to_tuple(a), bound) for a, bound in case['steps']]
+    run.case(case, any(not b for _, b in steps[1:]),
+             cls=['contextless-history'])
+    for i, (ast, bound) in enumerate(steps):
+        text = R.render(ast)
+        try:
+            exp = _ref(ast, doc, bound)
+        except RecursionError:
+            run.exclude('model recursion limit')
+            return
+        if exp[0] == 'err':
+            continue
+        try:
+            stmt = _engine()(text)
+            got = ('ok', canon(stmt.evaluate(data=doc) if bound
+                               else stmt.evaluate()))
+        except Exception as e:   # noqa
+            got = ('exc', e)
+        where = 'step %d of %d (%s)' % (i + 1, len(steps), 'with the '
+                                        'document' if bound else 'no data')
+        if got[0] != 'ok':
+            run.violate('error-where-reference-gives-value', case,
+                        '%s: %s raised %s: %s; reference interpreter: %r' % (
+                            where, text, type(got[1]).__name__, got[1],
+                            exp[1]), exc=got[1], input_class='contextless')
+            return
+        if not typed_eq(got[1], canon(exp[1])):
+            run.violate('result-differs-from-reference', case,
+                        '%s: %s -> %r; reference interpreter: %r' % (
+                            where, text, got[1], exp[1]),
+                        input_class='contextless')
+            return
+
+
+REPLAY = {'program': check_program, 'contextless': check_contextless}
 
 # --------------------------------------------------------------------------
 # generator
@@ -115,7 +168,10 @@ REPLAY = {'program': check_program}
 NAMES = ['x', 'y', 'v', 'e', 'x', 'y', 'context', 'engine', 'args', 'kwargs',
          'self', 'name', 'receiver', 'func', 'value', 'yaql_interface',
          'sequence', 'collection']
-FNAMES = ['f', 'g']
+# (names of def'd functions: also names under which the library has
+# *methods* - defining a function does not touch methods of that name)
+FNAMES = ['f', 'g', 'len', 'sum', 'first', 'select', 'where', 'toList',
+          'any', 'f', 'g']
 
 
 class Scope:
@@ -524,8 +580,39 @@ def programs(max_depth):
     return prog()
 
 
+UNBOUND = [
+    ('var', '$'), ('list', (('var', '$'), ('var', '$1'))),
+    ('bin', '=', ('var', '$'), ('null',)) if False else ('var', '$1'),
+    ('let', (), (('x', ('int', 1)),), ('list', (('var', '$x'),
+                                                ('var', '$')))),
+    ('m', ('list', (('int', 1), ('int', 2))), 'select', (
+        ('list', (('var', '$'), ('var', '$nothing'))),)),
+    ('with', (('int', 7),), ('list', (('var', '$'), ('var', '$1')))),
+]
+
+
+def contextless_cases(max_depth):
+    p = programs(max_depth)
+
+    @st.composite
+    def hist(draw):
+        steps = []
+        for _ in range(draw(st.integers(1, 3))):
+            if draw(st.booleans()):
+                steps.append([draw(p)['ast'], True])
+            else:
+                steps.append([draw(st.sampled_from(UNBOUND)), draw(
+                    st.booleans())])
+        steps.append([draw(st.sampled_from(UNBOUND)), False])
+        return {'kind': 'contextless', 'doc': draw(docs), 'steps': steps}
+    return hist()
+
+
 def _shard(run, n, depth, shard):
     run.hyp('programs', programs(depth), lambda c: check_program(run, c), n,
+            shard=shard)
+    run.hyp('contextless', contextless_cases(3),
+            lambda c: check_contextless(run, c), max(n // 10, 5),
             shard=shard)
 
 
